@@ -116,6 +116,7 @@ class Incarnation:
         self.settings = settings
         self.kwargs = kwargs
         self.client = sim.kube.client(name)
+        self.client.token = f'{name}-tok0'
         self.stop_flag: asyncio.Event | None = None
         self.ready_flag: asyncio.Event | None = None
         self.task: asyncio.Task[Any] | None = None
